@@ -4,6 +4,7 @@ import (
 	"fmt"
 	"go/token"
 	"go/types"
+	"sort"
 	"strings"
 
 	"golang.org/x/tools/go/ssa"
@@ -465,6 +466,40 @@ func (c *Ctx) RuleSuffixOps() *Result {
 				} else {
 					res.bad(key, c.P.InstrPos(call), why)
 				}
+				// inside a loop over the pairs the result must feed the next application: the
+				// subject of the cut is the loop-carried value its own result flows into
+				if rv := resultValue(call, 0); rv != nil || f.Name() == "TrimSuffix" {
+					var resV ssa.Value = call
+					if rv != nil {
+						resV = rv
+					}
+					for _, l := range naturalLoops(fn) {
+						if !l.body[call.Block()] {
+							continue
+						}
+						var carried *ssa.Phi
+						for _, in2 := range l.header.Instrs {
+							ph, ok := in2.(*ssa.Phi)
+							if !ok {
+								continue
+							}
+							if flowsIntoPhi(resV, ph, 0) {
+								carried = ph
+							}
+						}
+						if carried == nil {
+							continue
+						}
+						res.Instances++
+						k2 := fnName + ":pairs applied to the running result"
+						if stripConv(entry) == ssa.Value(carried) {
+							res.ok(k2, c.P.InstrPos(call), "the suffix is cut from the value the previous pair produced")
+						} else {
+							res.bad(k2, c.P.InstrPos(call), "each pair is matched against the original line instead of the result of the pairs applied so far: a replacement that ends in a later pair's key is not rewritten further (the pairs no longer compose)")
+						}
+						break
+					}
+				}
 			}
 		})
 		// loops over a []string parameter (file names): no early exit
@@ -637,35 +672,1098 @@ func (c *Ctx) RuleIdxParam() *Result {
 
 // templateOne judges one (pattern, template) pair of a replacement call.
 func (c *Ctx) templateOne(res *Result, fn *ssa.Function, call *ssa.Call, m string, recv ssa.Value, tmplV ssa.Value, dollar *rx.Lang) {
-			res.Instances++
-			pname := "computed pattern"
-			if p, _ := c.Rx().Resolve(recv); p != nil {
-				pname = p.Name
-			}
-			key := fmt.Sprintf("%s:replacement template for %s", load.FnName(fn), pname)
-			pos := c.P.InstrPos(call)
-			tmpl := tmplV
-			var problems []string
-			for _, op := range stringOperands(stripConv(tmpl), 0) {
-				if _, isC := constString(op); isC {
-					continue
-				}
-				lang, what, why := c.valueLanguage(op, fn, 0)
-				if lang == nil {
-					problems = append(problems, fmt.Sprintf("a value of unknown content (%s) is part of the replacement template: a '$' followed by a name, digit or '{' in it is expanded as a group reference instead of being written literally (use string concatenation of the submatches or ReplaceAllLiteral)", why))
-					continue
-				}
-				r, err := rx.Intersects(lang, dollar)
-				if err != nil {
-					problems = append(problems, err.Error())
-				} else if r.Found {
-					problems = append(problems, fmt.Sprintf("%s may contain '$' (e.g. %q), which the template expands", what, r.Witness))
-				}
-			}
-			if len(problems) > 0 {
-				res.bad(key, pos, strings.Join(uniq(problems), "; "))
-			} else {
-				res.ok(key, pos, "every non-constant part of the template has a '$'-free language")
-			}
+	res.Instances++
+	pname := "computed pattern"
+	if p, _ := c.Rx().Resolve(recv); p != nil {
+		pname = p.Name
+	}
+	key := fmt.Sprintf("%s:replacement template for %s", load.FnName(fn), pname)
+	pos := c.P.InstrPos(call)
+	tmpl := tmplV
+	var problems []string
+	for _, op := range stringOperands(stripConv(tmpl), 0) {
+		if _, isC := constString(op); isC {
+			continue
+		}
+		lang, what, why := c.valueLanguage(op, fn, 0)
+		if lang == nil {
+			problems = append(problems, fmt.Sprintf("a value of unknown content (%s) is part of the replacement template: a '$' followed by a name, digit or '{' in it is expanded as a group reference instead of being written literally (use string concatenation of the submatches or ReplaceAllLiteral)", why))
+			continue
+		}
+		r, err := rx.Intersects(lang, dollar)
+		if err != nil {
+			problems = append(problems, err.Error())
+		} else if r.Found {
+			problems = append(problems, fmt.Sprintf("%s may contain '$' (e.g. %q), which the template expands", what, r.Witness))
+		}
+	}
+	if len(problems) > 0 {
+		res.bad(key, pos, strings.Join(uniq(problems), "; "))
+	} else {
+		res.ok(key, pos, "every non-constant part of the template has a '$'-free language")
+	}
 
+}
+
+// ---------- FS-TRUNC / FS-NOERR ----------
+
+// RuleFsWriteDiscipline: (1) a file opened for writing is truncated (or the
+// whole-file primitive os.WriteFile is used): otherwise the tail of a longer old
+// version survives a shorter rewrite; (2) no write is reachable from the failing
+// side of an earlier error test in the same function (C16: a failed command
+// leaves its target untouched).
+func (c *Ctx) RuleFsWriteDiscipline() *Result {
+	res := &Result{Rule: "FS-WRITE-DISCIPLINE", MinInst: 4}
+	for _, ws := range c.writeSites() {
+		if ws.isExt {
+			continue
+		}
+		fnName := load.FnName(ws.fn)
+		// (1)
+		if ws.name == "os.OpenFile" {
+			res.Instances++
+			key := fnName + ":os.OpenFile flags"
+			if n, ok := constInt(ws.cc.Args[1]); ok {
+				const oTrunc, oAppend, oCreate, oExcl = 0x200, 0x400, 0x40, 0x80
+				if n&oTrunc == 0 && n&oAppend == 0 && !(n&oCreate != 0 && n&oExcl != 0) {
+					res.bad(key, c.P.InstrPos(ws.call), "the file is opened for writing without O_TRUNC: when the new contents are shorter than the old ones the old tail stays in the file (stale markers, duplicated or cut-off lines)")
+				} else {
+					res.ok(key, c.P.InstrPos(ws.call), "opened with O_TRUNC / O_APPEND / O_CREATE|O_EXCL")
+				}
+			} else {
+				res.undecided(key, c.P.InstrPos(ws.call), "open flags are not constant")
+			}
+		}
+		// (2)
+		if ws.prim.dataArg < 0 && ws.name != "os.OpenFile" {
+			continue
+		}
+		res.Instances++
+		key := fnName + ":" + ws.name + " after a failed step"
+		bad := ""
+		allInstrs(ws.fn, func(in ssa.Instruction) {
+			call, ok := in.(*ssa.Call)
+			if !ok || in == ws.call || bad != "" {
+				return
+			}
+			idx := errResultIndex(call.Call.Signature())
+			if idx < 0 {
+				return
+			}
+			ev := resultValue(call, idx)
+			if ev == nil {
+				return
+			}
+			for _, a := range errAliases(ev) {
+				for _, r := range referrers(a) {
+					bin, ok := r.(*ssa.BinOp)
+					if !ok {
+						continue
+					}
+					_, trueMeansNil, isTest := nilTest(bin)
+					if !isTest {
+						continue
+					}
+					for _, br := range condBranches(bin) {
+						succ := 1
+						if !trueMeansNil != br.neg {
+							succ = 0
+						}
+						blk := br.iff.Block()
+						target := blk.Succs[succ]
+						env := newEnvAt(blk)
+						env.facts[a] = nonNil
+						env.enter(target, blk)
+						c.explore(target, 0, env, exploreCB{
+							instr: func(i2 ssa.Instruction, e *pathEnv) bool {
+								if i2 == ws.call && bad == "" {
+									bad = fmt.Sprintf("the write is reachable after %s failed (error tested at %s): the command fails but has already modified its target", calleeLabel(&call.Call), c.P.InstrPos(bin))
+								}
+								return i2 == ws.call
+							},
+						})
+					}
+				}
+			}
+		})
+		if bad != "" {
+			res.bad(key, c.P.InstrPos(ws.call), bad)
+		} else {
+			res.ok(key, c.P.InstrPos(ws.call), "not reachable from the failing side of any earlier error test in the function")
+		}
+	}
+	// writes through a file handle (Write/WriteAt/WriteString on *os.File that is not a standard stream)
+	for _, fn := range c.P.RepoFns {
+		allInstrs(fn, func(in ssa.Instruction) {
+			call, ok := in.(*ssa.Call)
+			if !ok {
+				return
+			}
+			f := staticCallee(&call.Call)
+			if !(isMeth(f, "os", "File", "WriteAt") || isMeth(f, "os", "File", "Write") || isMeth(f, "os", "File", "WriteString")) {
+				return
+			}
+			if _, std := reasonedDrop(call); std {
+				return
+			}
+			res.Instances++
+			key := load.FnName(fn) + ":" + qualName(f)
+			// the handle must come from os.Create or a truncating OpenFile
+			okOpen := false
+			if ex, ok := call.Call.Args[0].(*ssa.Extract); ok {
+				if oc, ok := ex.Tuple.(*ssa.Call); ok {
+					of := staticCallee(&oc.Call)
+					if isFn(of, "os", "Create") {
+						okOpen = true
+					}
+					if isFn(of, "os", "OpenFile") {
+						if n, ok := constInt(oc.Call.Args[1]); ok && (n&0x200 != 0 || n&0x400 != 0) {
+							okOpen = true
+						}
+					}
+				}
+			}
+			if okOpen && f.Name() != "WriteAt" {
+				res.ok(key, c.P.InstrPos(call), "handle opened with truncation")
+			} else {
+				res.bad(key, c.P.InstrPos(call), "the file is rewritten through a handle that was not opened with truncation (or with WriteAt): when the new contents are shorter than the old ones the old tail stays in the file")
+			}
+		})
+	}
+	return res
+}
+
+// ---------- PRINTF ----------
+
+// RulePrintfConst: format strings are constants (file text must never be a format string).
+func (c *Ctx) RulePrintfConst() *Result {
+	res := &Result{Rule: "PRINTF-CONST", MinInst: 30}
+	bad := 0
+	for _, fn := range c.P.RepoFns {
+		allInstrs(fn, func(in ssa.Instruction) {
+			call, ok := in.(*ssa.Call)
+			if !ok {
+				return
+			}
+			f := staticCallee(&call.Call)
+			if f == nil {
+				return
+			}
+			fi := -1
+			switch {
+			case isFn(f, "fmt", "Sprintf") || isFn(f, "fmt", "Errorf") || isFn(f, "fmt", "Printf"):
+				fi = 0
+			case isFn(f, "fmt", "Fprintf"):
+				fi = 1
+			case objPkgPath(f) == zerologPkg && recvNamed(f) == "Event" && f.Name() == "Msgf":
+				fi = 1
+			}
+			if fi < 0 || fi >= len(call.Call.Args) {
+				return
+			}
+			res.Instances++
+			if _, isC := constString(call.Call.Args[fi]); isC {
+				return
+			}
+			// a format taken from a parameter of a thin wrapper is the wrapper's callers' business
+			if _, isParam := call.Call.Args[fi].(*ssa.Parameter); isParam {
+				return
+			}
+			bad++
+			res.bad(load.FnName(fn)+":"+qualName(f)+" format", c.P.InstrPos(call), "the format string is computed: a '%' in the text it is built from (file contents, arguments) is read as a verb — '%20|' becomes '%!|(MISSING)'")
+		})
+	}
+	if bad == 0 {
+		res.ok("repo:format strings", "-", fmt.Sprintf("%d formatting calls, every format string is a constant", res.Instances))
+	}
+	return res
+}
+
+// ---------- FLAG-PATTERN / LOG-STDERR (C02) ----------
+
+// RuleFlagPattern: the patterns that strip engine-inserted flag groups match
+// every spelling regexp/syntax can print: (?flags) and (?flags: with flags
+// drawn from imsU, optionally followed by -flags (Go prints set and cleared
+// flags in one group, e.g. (?i-s: ).
+func (c *Ctx) RuleFlagPattern() *Result {
+	res := &Result{Rule: "FLAG-PATTERN", MinInst: 2}
+	none := func(r rune) bool { return false }
+	for _, fn := range c.P.RepoFns {
+		if load.ShortPkg(load.FnPkgPath(fn)) != "regex/operators" {
+			continue
+		}
+		allInstrs(fn, func(in ssa.Instruction) {
+			call, _, recv, _, ok := regexpCall(in)
+			if !ok {
+				return
+			}
+			p, _ := c.Rx().Resolve(recv)
+			if p == nil || !strings.HasPrefix(p.Src, `\(\?`) || strings.HasPrefix(p.Src, `\(\?:`) {
+				return
+			}
+			res.Instances++
+			key := load.FnName(fn) + ":flag group pattern " + p.Src
+			closer := `:`
+			if strings.HasSuffix(p.Src, `\)`) {
+				closer = `\)`
+			}
+			want, _ := rx.FullPattern("flag groups the printer emits", `\(\?(?:[imsU]+(?:-[imsU]+)?|-[imsU]+)`+closer)
+			have, err := rx.Full(p.Src, p.Re)
+			if err != nil {
+				res.undecided(key, c.P.InstrPos(call), err.Error())
+				return
+			}
+			q := &rx.Query{Langs: []*rx.Lang{want, have}, Excluded: none, Accept: func(m []bool) bool { return m[0] && !m[1] }}
+			r, err := q.Run()
+			switch {
+			case err != nil:
+				res.undecided(key, c.P.InstrPos(call), err.Error())
+			case r.Found:
+				res.bad(key, c.P.InstrPos(call), fmt.Sprintf("regexp/syntax can print the flag group %q, which this pattern does not match: the inline flag group survives in the generated regex", r.Witness))
+			default:
+				res.ok(key, c.P.InstrPos(call), "matches every (?flags"+strings.TrimPrefix(closer, `\`)+" spelling the printer can emit (language inclusion)")
+			}
+		})
+	}
+	return res
+}
+
+// RuleLogStderr: log output goes to stderr, never into the generated regex on stdout.
+func (c *Ctx) RuleLogStderr() *Result {
+	res := &Result{Rule: "LOG-STDERR", MinInst: 1}
+	for _, fn := range c.P.RepoFns {
+		allInstrs(fn, func(in ssa.Instruction) {
+			al, ok := in.(*ssa.Alloc)
+			if !ok || !isNamed(derefType(al.Type()), zerologPkg, "ConsoleWriter") {
+				return
+			}
+			res.Instances++
+			key := load.FnName(fn) + ":zerolog.ConsoleWriter.Out"
+			fields := map[string]ssa.Value{}
+			st := derefType(al.Type()).Underlying().(*types.Struct)
+			for _, r := range referrers(al) {
+				if fa, ok := r.(*ssa.FieldAddr); ok {
+					for _, rr := range referrers(fa) {
+						if s2, ok := rr.(*ssa.Store); ok && s2.Addr == ssa.Value(fa) {
+							fields[st.Field(fa.Field).Name()] = s2.Val
+						}
+					}
+				}
+			}
+			out := stripConv(fields["Out"])
+			if ld, ok := out.(*ssa.UnOp); ok {
+				if g, ok := ld.X.(*ssa.Global); ok && g.Pkg.Pkg.Path() == "os" && g.Name() == "Stderr" {
+					res.ok(key, c.P.InstrPos(al), "os.Stderr")
+					return
+				}
+			}
+			res.bad(key, c.P.InstrPos(al), "log records are not written to os.Stderr: any warning or info record becomes part of generate's stdout, in front of the regex, with terminal escape bytes and a newline")
+		})
+	}
+	return res
+}
+
+// ---------- LAST-INDEX (C19) ----------
+
+// RuleLastIndex: s[len(s)-k] needs a test that s has at least k elements.
+func (c *Ctx) RuleLastIndex() *Result {
+	res := &Result{Rule: "LAST-INDEX", MinInst: 2}
+	scope := c.reachFromNamed(func(n string) bool { return n == "(*regex/operators.Operator).Run" })
+	for _, fn := range c.P.RepoFns {
+		if !scope[load.FnName(fn)] {
+			continue
+		}
+		allInstrs(fn, func(in ssa.Instruction) {
+			var base, idx ssa.Value
+			switch x := in.(type) {
+			case *ssa.Index:
+				base, idx = x.X, x.Index
+			case *ssa.IndexAddr:
+				base, idx = x.X, x.Index
+			case *ssa.Lookup:
+				if _, isMap := x.X.Type().Underlying().(*types.Map); isMap {
+					return
+				}
+				base, idx = x.X, x.Index
+			default:
+				return
+			}
+			sub, ok := idx.(*ssa.BinOp)
+			if !ok || sub.Op != token.SUB {
+				return
+			}
+			k, ok := constInt(sub.Y)
+			if !ok || k <= 0 {
+				return
+			}
+			// len(base) directly, or a variable holding it
+			lenOf := func(v ssa.Value) bool {
+				lc, ok := v.(*ssa.Call)
+				if !ok {
+					return false
+				}
+				bi, ok := lc.Call.Value.(*ssa.Builtin)
+				return ok && bi.Name() == "len" && stripConv(lc.Call.Args[0]) == stripConv(base)
+			}
+			if !lenOf(sub.X) {
+				return
+			}
+			res.Instances++
+			key := fmt.Sprintf("%s:%s[len-%d]", load.FnName(fn), valueLabel(base), k)
+			guard := func(cond ssa.Value, val bool) bool {
+				b, ok := cond.(*ssa.BinOp)
+				if !ok || !lenOf(b.X) {
+					return false
+				}
+				n, ok := constInt(b.Y)
+				if !ok {
+					return false
+				}
+				switch b.Op {
+				case token.GTR:
+					return val && n >= k-1
+				case token.GEQ:
+					return val && n >= k
+				case token.NEQ:
+					return val && n == 0 && k == 1
+				case token.EQL:
+					return (!val && n == 0 && k == 1) || (val && n >= k)
+				case token.LSS:
+					return !val && n >= k
+				case token.LEQ:
+					return !val && n >= k-1
+				}
+				return false
+			}
+			if c.guardedByEdges(in, guard) {
+				res.ok(key, c.P.InstrPos(in), "guarded by a length test")
+			} else {
+				res.bad(key, c.P.InstrPos(in), fmt.Sprintf("%s[len(%s)-%d] is read without a test that it has %d element(s): an empty value ends in an index-out-of-range panic", valueLabel(base), valueLabel(base), k, k))
+			}
+		})
+	}
+	return res
+}
+
+// flowsIntoPhi: does v reach phi (an edge of it) through phis and string concatenation?
+func flowsIntoPhi(v ssa.Value, target *ssa.Phi, depth int) bool {
+	if depth > 6 {
+		return false
+	}
+	for _, r := range referrers(v) {
+		switch x := r.(type) {
+		case *ssa.Phi:
+			if x == target || flowsIntoPhi(x, target, depth+1) {
+				return true
+			}
+		case *ssa.BinOp:
+			if x.Op == token.ADD && flowsIntoPhi(x, target, depth+1) {
+				return true
+			}
+		}
+	}
+	return false
+}
+
+// RuleExclKey (C06): lines are put into and deleted from the inclusion map by
+// the same key derivation (the scanner's line, untransformed).
+func (c *Ctx) RuleExclKey() *Result {
+	res := &Result{Rule: "EXCL-KEY", MinInst: 2}
+	isText := func(v ssa.Value) bool {
+		call, ok := stripConv(v).(*ssa.Call)
+		return ok && isMeth(staticCallee(&call.Call), "bufio", "Scanner", "Text")
+	}
+	for _, fn := range c.P.RepoFns {
+		if load.ShortPkg(load.FnPkgPath(fn)) != "regex/parser" {
+			continue
+		}
+		allInstrs(fn, func(in ssa.Instruction) {
+			var key ssa.Value
+			what := ""
+			switch x := in.(type) {
+			case *ssa.MapUpdate:
+				if mt, ok := x.Map.Type().Underlying().(*types.Map); ok {
+					if _, isStruct := mt.Elem().Underlying().(*types.Struct); isStruct && mt.Key().Underlying().String() == "string" {
+						key, what = x.Key, "insertion"
+					}
+				}
+			case *ssa.Call:
+				if bi, ok := x.Call.Value.(*ssa.Builtin); ok && bi.Name() == "delete" && len(x.Call.Args) == 2 {
+					if mt, ok := x.Call.Args[0].Type().Underlying().(*types.Map); ok {
+						if _, isStruct := mt.Elem().Underlying().(*types.Struct); isStruct {
+							key, what = x.Call.Args[1], "deletion"
+						}
+					}
+				}
+			}
+			if key == nil {
+				return
+			}
+			res.Instances++
+			k := load.FnName(fn) + ":" + what + " key of the inclusion map"
+			if isText(key) {
+				res.ok(k, c.P.InstrPos(in), "the scanner's line, untransformed")
+			} else {
+				res.bad(k, c.P.InstrPos(in), "the key used for "+what+" is not the untransformed line: entries are inserted and excluded under different spellings (an excluded entry with trailing white space survives, a look-alike is dropped)")
+			}
+		})
+	}
+	return res
+}
+
+// RuleProcStart (C16): the assembler hands every line that starts like a
+// processor start marker to the dispatcher that rejects unknown names. The
+// pattern that selects those lines must therefore match every line
+// "##!>" blanks name - a pattern that enumerates the known names turns an
+// unknown processor into ordinary text.
+func (c *Ctx) RuleProcStart() *Result {
+	res := &Result{Rule: "PROC-START", MinInst: 1}
+	none := func(r rune) bool { return false }
+	for _, s := range c.submatchSites() {
+		if load.ShortPkg(load.FnPkgPath(s.fn)) != "regex/operators" || s.all || s.index {
+			continue
+		}
+		// a group of the match is an argument of a repository call in the same package
+		dispatch := ""
+		var follow func(v ssa.Value, d int)
+		follow = func(v ssa.Value, d int) {
+			if d > 3 || dispatch != "" {
+				return
+			}
+			for _, r := range referrers(v) {
+				switch x := r.(type) {
+				case *ssa.IndexAddr:
+					follow(x, d+1)
+				case *ssa.Slice:
+					follow(x, d+1)
+				case *ssa.UnOp:
+					if x.Op == token.MUL {
+						follow(x, d+1)
+					}
+				case *ssa.Call:
+					if sf := staticFn(&x.Call); sf != nil && c.P.IsRepoFn(sf) && load.FnPkgPath(sf) == load.FnPkgPath(s.fn) {
+						dispatch = load.FnName(sf)
+					}
+				}
+			}
+		}
+		follow(s.call, 0)
+		if dispatch == "" || s.pattern == nil || !strings.HasPrefix(s.pattern.Src, "^##!>") {
+			continue
+		}
+		res.Instances++
+		key := load.FnName(s.fn) + ":processor start lines handed to " + dispatch
+		want, _ := rx.SearchPattern("processor start marker with a name", `^##!>\s*[a-z]+`)
+		have := searchLang(s.pattern)
+		q := &rx.Query{Langs: []*rx.Lang{want, have}, Excluded: none, Accept: func(m []bool) bool { return m[0] && !m[1] }}
+		r, err := q.Run()
+		switch {
+		case err != nil:
+			res.undecided(key, c.P.InstrPos(s.call), err.Error())
+		case r.Found:
+			res.bad(key, c.P.InstrPos(s.call), fmt.Sprintf("the line %q starts a processor but is not matched by %s (%s): it never reaches %s, so an unknown processor name is compiled as ordinary text instead of being rejected", r.Witness, s.pattern.Name, s.pattern.Src, dispatch))
+		default:
+			res.ok(key, c.P.InstrPos(s.call), fmt.Sprintf("%s matches every line \"##!>\" blanks name (language inclusion), unknown names reach the dispatcher's error", s.pattern.Name))
+		}
+	}
+	return res
+}
+
+// ---------- REC-BOUND (C19: "never loops") ----------
+
+// sccs of the repository call graph restricted to set (Tarjan).
+func (c *Ctx) sccs(set map[*ssa.Function]bool) [][]*ssa.Function {
+	g := c.Graph()
+	index := map[*ssa.Function]int{}
+	low := map[*ssa.Function]int{}
+	on := map[*ssa.Function]bool{}
+	var stack []*ssa.Function
+	var out [][]*ssa.Function
+	n := 0
+	var fns []*ssa.Function
+	for fn := range set {
+		fns = append(fns, fn)
+	}
+	sort.Slice(fns, func(i, j int) bool { return load.FnName(fns[i]) < load.FnName(fns[j]) })
+	var visit func(v *ssa.Function)
+	visit = func(v *ssa.Function) {
+		index[v], low[v] = n, n
+		n++
+		stack = append(stack, v)
+		on[v] = true
+		for _, e := range g.Out[v] {
+			w := e.Callee
+			if !set[w] {
+				continue
+			}
+			if _, seen := index[w]; !seen {
+				visit(w)
+				if low[w] < low[v] {
+					low[v] = low[w]
+				}
+			} else if on[w] && index[w] < low[v] {
+				low[v] = index[w]
+			}
+		}
+		if low[v] == index[v] {
+			var comp []*ssa.Function
+			for {
+				w := stack[len(stack)-1]
+				stack = stack[:len(stack)-1]
+				on[w] = false
+				comp = append(comp, w)
+				if w == v {
+					break
+				}
+			}
+			self := false
+			for _, e := range g.Out[v] {
+				if e.Callee == v {
+					self = true
+				}
+			}
+			if len(comp) > 1 || self {
+				sort.Slice(comp, func(i, j int) bool { return load.FnName(comp[i]) < load.FnName(comp[j]) })
+				out = append(out, comp)
+			}
+		}
+	}
+	for _, fn := range fns {
+		if _, seen := index[fn]; !seen {
+			visit(fn)
+		}
+	}
+	return out
+}
+
+// RuleRecBound: every recursion reachable from Operator.Run has a bound that
+// is visible in the code: a base case selected by the constant arguments of
+// the recursive call, an explicit depth / visited guard, or a file descriptor
+// held across the recursive call (the depth is then bounded by the process's
+// descriptor limit and the run ends in the deliberate "cannot open file"
+// diagnostic).
+func (c *Ctx) RuleRecBound() *Result {
+	res := &Result{Rule: "REC-BOUND", MinInst: 2}
+	g := c.Graph()
+	var roots []*ssa.Function
+	for _, fn := range c.P.RepoFns {
+		if load.FnName(fn) == "(*regex/operators.Operator).Run" {
+			roots = append(roots, fn)
+		}
+	}
+	set := map[*ssa.Function]bool{}
+	for fn := range g.Reach(roots) {
+		set[fn] = true
+	}
+	for _, comp := range c.sccs(set) {
+		in := map[*ssa.Function]bool{}
+		for _, fn := range comp {
+			in[fn] = true
+		}
+		res.Instances++
+		key := load.FnName(comp[0]) + ":recursion"
+		pos := c.P.FnPos(comp[0])
+		// recursive call sites
+		type site struct {
+			fn   *ssa.Function
+			call ssa.Instruction
+			to   *ssa.Function
+		}
+		var sites []site
+		for _, fn := range comp {
+			for _, e := range g.Out[fn] {
+				if in[e.Callee] {
+					sites = append(sites, site{fn, e.Site, e.Callee})
+				}
+			}
+		}
+		// (a) the cycles are cut by recursive calls whose constant arguments select a base case
+		// of the callee (under them no path of the callee calls into the cycle again)
+		{
+			cut := map[ssa.Instruction]bool{}
+			for _, s := range sites {
+				if cc := callCommon(s.call); cc != nil && c.constArgsSelectBase(s.to, cc, in) {
+					cut[s.call] = true
+				}
+			}
+			if len(cut) > 0 && c.acyclicWithoutSites(in, cut) {
+				res.ok(key, pos, fmt.Sprintf("%d of %d recursive call(s) pass constant arguments under which no path of the callee calls into the cycle again, and without them the functions do not form a cycle (depth bounded by 2)", len(cut), len(sites)))
+				continue
+			}
+		}
+		// (b) every cycle passes through one function that holds an open file across the call
+		how := ""
+		for _, F := range comp {
+			if !c.acyclicWithout(in, F) {
+				continue
+			}
+			if w := c.holdsDescriptorAcross(F, in); w != "" {
+				how = w
+				break
+			}
+		}
+		if how != "" {
+			res.ok(key, pos, how)
+			continue
+		}
+		// (c) an explicit guard: the recursive calls are dominated by a test of a map lookup or an integer bound
+		guarded := true
+		for _, s := range sites {
+			if !explicitRecursionGuard(s.call) {
+				guarded = false
+			}
+		}
+		if guarded && len(sites) > 0 {
+			res.ok(key, pos, "every recursive call is dominated by a test of a visited-set lookup or an integer depth bound")
+			continue
+		}
+		var names []string
+		for _, fn := range comp {
+			names = append(names, load.FnName(fn))
+		}
+		res.bad(key, pos, "nothing bounds the recursion "+strings.Join(names, " -> ")+": no base case is selected by the arguments, no depth or visited test guards the recursive call, and no file descriptor is held across it; an input that closes the cycle (a file that includes itself) ends in a stack overflow of the runtime instead of a diagnostic")
+	}
+	return res
+}
+
+// constArgsSelectBase: with the constant arguments of cc, no path from the
+// entry of fn reaches a call of fn.
+func (c *Ctx) constArgsSelectBase(fn *ssa.Function, cc *ssa.CallCommon, in map[*ssa.Function]bool) bool {
+	if len(fn.Blocks) == 0 {
+		return false
+	}
+	args := cc.Args
+	bools := map[ssa.Value]bool{}
+	known := false
+	allInstrs(fn, func(in ssa.Instruction) {
+		bo, ok := in.(*ssa.BinOp)
+		if !ok {
+			return
+		}
+		eval := func(x ssa.Value) (int64, bool) {
+			if k, ok := constInt(x); ok {
+				return k, true
+			}
+			if call, ok := x.(*ssa.Call); ok {
+				if bi, ok := call.Call.Value.(*ssa.Builtin); ok && bi.Name() == "len" {
+					if pi := paramIndex(fn, call.Call.Args[0]); pi >= 0 && pi < len(args) {
+						if sv, ok := constString(args[pi]); ok {
+							return int64(len(sv)), true
+						}
+					}
+				}
+			}
+			return 0, false
+		}
+		// string comparison of a parameter with a constant
+		if pi := paramIndex(fn, bo.X); pi >= 0 && pi < len(args) {
+			if a, ok := constString(args[pi]); ok {
+				if b, ok := constString(bo.Y); ok {
+					switch bo.Op {
+					case token.EQL:
+						bools[bo], known = a == b, true
+					case token.NEQ:
+						bools[bo], known = a != b, true
+					}
+					return
+				}
+			}
+		}
+		x, ok1 := eval(bo.X)
+		y, ok2 := eval(bo.Y)
+		if !ok1 || !ok2 {
+			return
+		}
+		switch bo.Op {
+		case token.EQL:
+			bools[bo], known = x == y, true
+		case token.NEQ:
+			bools[bo], known = x != y, true
+		case token.LSS:
+			bools[bo], known = x < y, true
+		case token.LEQ:
+			bools[bo], known = x <= y, true
+		case token.GTR:
+			bools[bo], known = x > y, true
+		case token.GEQ:
+			bools[bo], known = x >= y, true
+		}
+	})
+	if !known {
+		return false
+	}
+	env := newEnvAt(fn.Blocks[0])
+	env.bools = bools
+	reached := false
+	c.explore(fn.Blocks[0], 0, env, exploreCB{
+		instr: func(inr ssa.Instruction, pe *pathEnv) bool {
+			if cc2 := callCommon(inr); cc2 != nil {
+				if sf := staticFn(cc2); sf != nil && in[sf] {
+					reached = true
+					return true
+				}
+			}
+			return false
+		},
+	})
+	return !reached
+}
+
+// acyclicWithoutSites: the functions of in do not form a cycle once the given call sites are removed.
+func (c *Ctx) acyclicWithoutSites(in map[*ssa.Function]bool, cut map[ssa.Instruction]bool) bool {
+	g := c.Graph()
+	state := map[*ssa.Function]int{}
+	var dfs func(v *ssa.Function) bool
+	dfs = func(v *ssa.Function) bool {
+		state[v] = 1
+		for _, e := range g.Out[v] {
+			w := e.Callee
+			if !in[w] || cut[e.Site] {
+				continue
+			}
+			if state[w] == 1 {
+				return false
+			}
+			if state[w] == 0 && !dfs(w) {
+				return false
+			}
+		}
+		state[v] = 2
+		return true
+	}
+	for fn := range in {
+		if state[fn] == 0 && !dfs(fn) {
+			return false
+		}
+	}
+	return true
+}
+
+func (c *Ctx) acyclicWithout(in map[*ssa.Function]bool, F *ssa.Function) bool {
+	g := c.Graph()
+	state := map[*ssa.Function]int{}
+	var dfs func(v *ssa.Function) bool
+	dfs = func(v *ssa.Function) bool {
+		state[v] = 1
+		for _, e := range g.Out[v] {
+			w := e.Callee
+			if !in[w] || w == F {
+				continue
+			}
+			if state[w] == 1 {
+				return false
+			}
+			if state[w] == 0 && !dfs(w) {
+				return false
+			}
+		}
+		state[v] = 2
+		return true
+	}
+	for fn := range in {
+		if fn != F && state[fn] == 0 && !dfs(fn) {
+			return false
+		}
+	}
+	return true
+}
+
+// holdsDescriptorAcross: F opens a file on every path to its calls into the
+// cycle and does not close it before them.
+func (c *Ctx) holdsDescriptorAcross(F *ssa.Function, in map[*ssa.Function]bool) string {
+	if len(F.Blocks) == 0 {
+		return ""
+	}
+	g := c.Graph()
+	cycleSite := map[ssa.Instruction]bool{}
+	for _, e := range g.Out[F] {
+		if in[e.Callee] {
+			cycleSite[e.Site] = true
+		}
+	}
+	isOpen := func(inr ssa.Instruction) bool {
+		cc := callCommon(inr)
+		if cc == nil {
+			return false
+		}
+		f := staticCallee(cc)
+		if isFn(f, "os", "Open") || isFn(f, "os", "OpenFile") {
+			return true
+		}
+		// a repository helper that hands out the file it opened
+		if sf := staticFn(cc); sf != nil && c.P.IsRepoFn(sf) && sf.Signature.Results().Len() > 0 && isNamed(derefType(sf.Signature.Results().At(0).Type()), "os", "File") {
+			opened, closed := false, false
+			allInstrs(sf, func(in2 ssa.Instruction) {
+				if c2 := callCommon(in2); c2 != nil {
+					f2 := staticCallee(c2)
+					if isFn(f2, "os", "Open") || isFn(f2, "os", "OpenFile") {
+						opened = true
+					}
+					if isMeth(f2, "os", "File", "Close") {
+						closed = true
+					}
+				}
+			})
+			return opened && !closed
+		}
+		return false
+	}
+	opens := 0
+	closedEarly := false
+	allInstrs(F, func(inr ssa.Instruction) {
+		if isOpen(inr) {
+			opens++
+		}
+		if call, ok := inr.(*ssa.Call); ok { // a deferred Close runs after the recursion returned
+			if isMeth(staticCallee(&call.Call), "os", "File", "Close") {
+				closedEarly = true
+			}
+		}
+	})
+	if opens == 0 || closedEarly {
+		return ""
+	}
+	// the value that recurses (receiver or argument of the call into the cycle) is built from the opened file
+	tainted := map[ssa.Value]bool{}
+	var work []ssa.Value
+	add := func(v ssa.Value) {
+		if v != nil && !tainted[v] {
+			tainted[v] = true
+			work = append(work, v)
+		}
+	}
+	allInstrs(F, func(inr ssa.Instruction) {
+		if isOpen(inr) {
+			if v, ok := inr.(ssa.Value); ok {
+				if rv := resultValue(v.(*ssa.Call), 0); rv != nil {
+					add(rv)
+				}
+			}
+		}
+	})
+	for len(work) > 0 {
+		v := work[0]
+		work = work[1:]
+		for _, r := range referrers(v) {
+			switch x := r.(type) {
+			case *ssa.Phi, *ssa.MakeInterface, *ssa.ChangeInterface, *ssa.ChangeType:
+				add(x.(ssa.Value))
+			case *ssa.Call:
+				add(x)
+			case *ssa.Store:
+				if x.Val == v {
+					// a variable that holds the file: its loads carry it
+					for _, rr := range referrers(x.Addr) {
+						if ld, ok := rr.(*ssa.UnOp); ok && ld.Op == token.MUL {
+							add(ld)
+						}
+					}
+				}
+			}
+		}
+	}
+	missed := len(cycleSite) == 0
+	for site := range cycleSite {
+		cc := callCommon(site)
+		if cc == nil {
+			missed = true
+			continue
+		}
+		has := false
+		for _, a := range cc.Args {
+			if tainted[a] {
+				has = true
+			}
+		}
+		if !has {
+			missed = true
+		}
+	}
+	if missed {
+		return ""
+	}
+	return fmt.Sprintf("every cycle passes through %s, where what recurses reads from a file opened with os.Open that is not closed before the call returns: the depth is bounded by the descriptor limit and the run ends in the open-failure diagnostic", load.FnName(F))
+}
+
+// explicitRecursionGuard: the call is dominated by a branch on a map lookup (visited set) or an integer comparison.
+func explicitRecursionGuard(site ssa.Instruction) bool {
+	b := site.Block()
+	for d := b.Idom(); d != nil; d = d.Idom() {
+		iff, ok := d.Instrs[len(d.Instrs)-1].(*ssa.If)
+		if !ok {
+			continue
+		}
+		cond, _ := unwrapNot(iff.Cond)
+		switch x := cond.(type) {
+		case *ssa.Extract:
+			if lk, ok := x.Tuple.(*ssa.Lookup); ok && lk.CommaOk {
+				return true
+			}
+		case *ssa.Lookup:
+			return true
+		case *ssa.BinOp:
+			if bt, ok := x.X.Type().Underlying().(*types.Basic); ok && bt.Info()&types.IsInteger != 0 {
+				switch x.Op {
+				case token.LSS, token.LEQ, token.GTR, token.GEQ:
+					// a depth counter: a parameter or a field, compared with a bound
+					for _, side := range []ssa.Value{x.X, x.Y} {
+						switch y := side.(type) {
+						case *ssa.Parameter:
+							return true
+						case *ssa.UnOp:
+							if _, isField := y.X.(*ssa.FieldAddr); isField && y.Op == token.MUL {
+								return true
+							}
+						}
+					}
+				}
+			}
+		}
+	}
+	return false
+}
+
+// ---------- WALK-FILTER ----------
+
+// walkFilterPolicy: the only name tests that may make a directory-walk
+// callback skip a file entry, per command (taken from the statements: .ra
+// assembly files; every file below the regression-test directory, selected
+// later by the test-file pattern; *.conf and *.example).
+var walkFilterPolicy = map[string][]string{
+	"update":           {".ra"},
+	"compare":          {".ra"},
+	"format":           {".ra"},
+	"renumber-tests":   {},
+	"update-copyright": {".conf", ".example"},
+}
+
+// RuleWalkFilter: a file entry is skipped by the walk callback only when it is
+// a directory, when the walk reported an error, when a repository pattern did
+// not match its name, or when its name failed every extension test of the
+// command's policy. A narrower filter silently leaves files unprocessed that
+// the single-file form of the command processes.
+func (c *Ctx) RuleWalkFilter(commands ...string) *Result {
+	res := &Result{Rule: "WALK-FILTER", MinInst: len(commands)}
+	for _, name := range commands {
+		cmd := c.Commands().ByName[name]
+		if cmd == nil {
+			continue
+		}
+		policy := walkFilterPolicy[name]
+		for _, cb := range c.perFileCallbacks(cmd) {
+			if len(cb.Blocks) == 0 {
+				continue
+			}
+			res.Instances++
+			key := load.FnName(cb) + ":entries skipped by the walk callback"
+			// classify a branch edge: justification (-1), failed policy item (index), or nothing (-2)
+			classify := func(cond ssa.Value, val bool) int {
+				switch x := cond.(type) {
+				case *ssa.Call:
+					if x.Call.IsInvoke() && x.Call.Method.Name() == "IsDir" && val {
+						return -1
+					}
+					f := staticCallee(&x.Call)
+					if isFn(f, "errors", "Is") && val {
+						return -1
+					}
+					if isFn(f, "strings", "HasSuffix") && !val {
+						if s, ok := constString(x.Call.Args[1]); ok {
+							for i, p := range policy {
+								if p == s {
+									return i
+								}
+							}
+						}
+					}
+					if _, m, _, _, ok := regexpCall(x); ok && regexpMatchMethods[m] && !val {
+						return -1
+					}
+				case *ssa.BinOp:
+					if v, trueMeansNil, isTest := nilTest(x); isTest {
+						if _, isParam := v.(*ssa.Parameter); isParam && val != trueMeansNil {
+							return -1 // the walk's own error
+						}
+						if _, _, _, _, ok := regexpCall(asInstr(v)); ok && val == trueMeansNil {
+							return -1 // no match
+						}
+					}
+					for i, p := range policy {
+						if extPred(p)(cond, !val) {
+							return i
+						}
+					}
+				}
+				return -2
+			}
+			isProcessing := func(b *ssa.BasicBlock) bool {
+				for _, in := range b.Instrs {
+					cc := callCommon(in)
+					if cc == nil {
+						continue
+					}
+					if sf := staticFn(cc); sf != nil && c.P.IsRepoFn(sf) && load.ShortPkg(load.FnPkgPath(sf)) != "logger" {
+						return true
+					}
+					if _, isClosure := cc.Value.(*ssa.MakeClosure); isClosure {
+						return true
+					}
+				}
+				return false
+			}
+			type st struct {
+				b    *ssa.BasicBlock
+				mask int
+				just bool
+			}
+			seen := map[st]bool{}
+			stack := []st{{cb.Blocks[0], 0, false}}
+			full := (1 << len(policy)) - 1
+			bad := ""
+			lm := c.Loud()
+			for len(stack) > 0 && bad == "" {
+				s := stack[len(stack)-1]
+				stack = stack[:len(stack)-1]
+				if seen[s] {
+					continue
+				}
+				seen[s] = true
+				if isProcessing(s.b) || lm.BlockDies(s.b) {
+					continue
+				}
+				last := s.b.Instrs[len(s.b.Instrs)-1]
+				if r, ok := last.(*ssa.Return); ok {
+					op := retErrOperand(r)
+					if _, isNil := op.(*ssa.Const); isNil && !s.just && !(len(policy) > 0 && s.mask == full) {
+						bad = fmt.Sprintf("the callback returns without processing the entry at %s on a path where the entry is not known to be a directory, no pattern failed to match and not every name test of the command (%s) failed: files the single-file form processes are silently left out of the --all run", c.P.InstrPos(r), strings.Join(policy, ", "))
+					}
+					continue
+				}
+				iff, isIf := last.(*ssa.If)
+				for si, sc := range s.b.Succs {
+					n := st{sc, s.mask, s.just}
+					if isIf && s.b.Succs[0] != s.b.Succs[1] {
+						cond, neg := unwrapNot(iff.Cond)
+						val := si == 0
+						if neg {
+							val = !val
+						}
+						switch k := classify(cond, val); {
+						case k == -1:
+							n.just = true
+						case k >= 0:
+							n.mask |= 1 << k
+						}
+					}
+					stack = append(stack, n)
+				}
+			}
+			if bad != "" {
+				res.bad(key, c.P.FnPos(cb), bad)
+			} else {
+				res.ok(key, c.P.FnPos(cb), "an entry is skipped only when it is a directory, the walk failed, a pattern did not match or every name test of the policy failed")
+			}
+		}
+	}
+	return res
 }
